@@ -649,8 +649,8 @@ class TT:
 
 def r01_1(ctx):
     out = Outcome("R01.1", "every return of every operator method equals the Boolean specification of that operator on "
-                           "every admissible point assignment (p in self/subshapes, p in other)", floor=22)
-    out.exhaustive = True
+                           "every admissible point assignment (p in self/subshapes, p in other)", floor=18)
+    out.exhaustive = True        # floor: the 18 operator methods, one return each at least (short-cuts add returns)
     for q, fn in sorted(ctx.model.funcs.items()):
         if fn.mod != "shape" or fn.name not in SPEC or not fn.cls or "Shape" not in fn.cls:
             continue
@@ -1478,7 +1478,16 @@ def r01_4(ctx):
             inf_q = ctx.typer.of(fn)
             kinds = {kind for node, kind, tg in inf_q.calls if isinstance(tg, list) and any(t.qname == q for t in tg)}
             if kinds and kinds <= {"cha"}:
-                out.undecided(q, "a call on a receiver of unknown type may or may not be a recursive call", where=fn.where())
+                # the receiver's type is not known.  If it is never the object the method was called on (`jordan.move(..)`
+                # inside `move`, for the curves of a shape), the call descends into another object: no recursion on
+                # this one.  Only a call on `self` itself cannot be judged.
+                recvs = [node.func.value for node, kind, tg in inf_q.calls if isinstance(tg, list) and any(t.qname == q for t in tg)
+                         and isinstance(node, ast.Call) and isinstance(node.func, ast.Attribute)]
+                selfn = fn.params[0] if fn.params else None
+                if recvs and all(not pat.is_name(r, selfn) for r in recvs):
+                    out.ok(q, "same-named method called on another object (not a recursion on this one)", where=fn.where())
+                else:
+                    out.undecided(q, "a call on a receiver of unknown type may or may not be a recursive call", where=fn.where())
                 continue
             ok, txt = _recursion_decreases(fn)
             if not ok:
